@@ -267,7 +267,28 @@ def contentForConsole (t : Bytes) : Bytes :=
 
 def decBytes (n : Nat) : Bytes := (toString n).toUTF8.toList
 
-def headerArg (h : Bytes × Bytes) : Bytes := h.1 ++ [58, 32] ++ h.2
+/-- `str.strip()` whitespace on the ASCII range: SP, TAB LF VT FF CR, FS GS RS US (non-ASCII spaces are outside the model) -/
+def isPyWs (c : UInt8) : Bool := c = 32 || (9 ≤ c.toNat && c.toNat ≤ 13) || (28 ≤ c.toNat && c.toNat ≤ 31)
+
+/-- `_header_arg`: `"Name;"` for a header whose value is empty or blank (curl and httpie read `Name:` as "remove this
+    header"), else `"Name: value"` -/
+def headerArg (h : Bytes × Bytes) : Bytes :=
+  if h.2.all isPyWs then h.1 ++ [59] else h.1 ++ [58, 32] ++ h.2
+
+/-- the header form before fix 0f1b16ec7 -/
+def headerArgOld (h : Bytes × Bytes) : Bytes := h.1 ++ [58, 32] ++ h.2
+
+/-- curl's `ISSPACE` -/
+def isCurlSpace (c : UInt8) : Bool := c = 32 || (9 ≤ c.toNat && c.toNat ≤ 13)
+
+/-- the header line curl puts on the wire for one `-H` argument (`Curl_add_custom_headers`): with a colon, the argument
+    itself unless nothing but spaces follows the colon (then the header is removed / not sent); without a colon, `name;`
+    (the first `;` being the last character) is sent as `name:`; anything else is ignored -/
+def sentHeader (a : Bytes) : Option Bytes :=
+  if a.contains 58 then
+    (if ((a.dropWhile (· != 58)).drop 1).dropWhile isCurlSpace = [] then none else some a)
+  else if a.dropWhile (· != 59) = [59] then some (a.takeWhile (· != 59) ++ [58])
+  else none
 
 def sH : Bytes := [45, 72]
 def sX : Bytes := [45, 88]
